@@ -145,6 +145,10 @@ class Renderer:
             e = "str(" + self.sym(mod, it["var"], v["module"], v.get("access"), imports) + ")"
         elif k == "const":
             e = self.epv(it["expr"])
+        elif k == "call" and it.get("form") == "local_import":
+            # the callee is imported inside the function body, not at module level
+            f = _fn(self.spec, it["fn"])
+            return [f"from {self.pkg}.{f['module']} import {it['fn']}", f"_{i} = {it['fn']}()"]
         elif k == "call":
             f = _fn(self.spec, it["fn"])
             args = ", ".join(self.arg(a, mod, imports) for a in it.get("args", []))
@@ -230,8 +234,13 @@ class Renderer:
         if f.get("datafn"):
             lines.append(f"@dds.data_function({f['datafn']!r})")
         ind = "    "
+        if f.get("cls") and f.get("inherit_only"):
+            return [f"class {name}({f['base']}):", "    pass"]
         if f.get("cls"):
-            lines.append(f"class {name}(object):")
+            lines.append(f"class {name}({f.get('base', 'object')}):")
+            for i, it in enumerate(f.get("clsattr", [])):
+                for l in self.item(i, it, mod, imports):
+                    lines.append("    " + l.replace(f"_{i} = ", f"A{i} = ", 1))
             init_reads = [it for it in f.get("init", [])]
             lines.append("    def __init__(self):")
             if init_reads:
@@ -253,6 +262,7 @@ class Renderer:
         parts = [f"str({p})" for p, _ in f.get("params", [])] + [f"str(_{i})" for i in range(len(f.get("body", [])))]
         if f.get("cls"):
             parts.append("self.v")
+            parts += [f"str(self.A{i})" for i in range(len(f.get("clsattr", [])))]
         for k in range(self.variant.get("pad:" + name, 0)):
             lines.append(f"{ind}_pad{k} = 0")
         lines.append(f"{ind}return \"{name}#{tag}(\" + \",\".join([{', '.join(parts)}]) + \")\"")
@@ -359,7 +369,11 @@ class Cone:
             self.memo[key] = res
             return res
         reads, calls, loads = [], [], []
-        items = list(f.get("init", [])) + list(f.get("body", []))
+        items = list(f.get("clsattr", [])) + list(f.get("init", [])) + list(f.get("body", []))
+        if f.get("inherit_only"):
+            res = ("inherits", self.text(fname), self.cf(f["base"], binding, stack + (fname,)))
+            self.memo[key] = res
+            return res
         ownctx = ("ctxof", fname, binding, self.text(fname))
         for idx, it in enumerate(items):
             k = it["k"]
